@@ -11,6 +11,7 @@ Shared line-protocol front end for the engine-level drivers (C03, C19).
   `ev trading <on|off>`
   `ev snap i c q p K a b d` | `ev resp i c ok|err`      (C01 syntax)
   `ev fill i <B|S> qty` | `ev flat i` | `ev price i p`
+  `ev other <mktre|accre|bal> <exchange>`   market / account disconnect notice, balance snapshot
 requests:  `c:<ex>:<ins>:<cid>[:<order id>]`   `o:<ex>:<ins>:<cid>:<B|S>:<price>:<qty>`
 filters :  `none` | `ex:0,1` | `ins:0,2` | `und:0-1,2-1`
 The risk manager refuses exactly the requests whose client order id is >= 5000.
@@ -151,6 +152,8 @@ def parseEvent (toks : List String) : Option Event :=
     match i.toNat?, parseRat? p with
     | some i, some p => some (.update (.price i p))
     | _, _ => none
+  -- `other mktre|accre|bal <exchange>`: a disconnect notice / balance snapshot: state outside this model
+  | ["other", _, _] => some (.update .other)
   | _ => none
 
 def Event.instrumentsInRange (n : Nat) : Event → Bool
@@ -233,6 +236,7 @@ def eventKind : Event → String
   | .update (.position _ _ _) => "fill"
   | .update (.flat _) => "flat"
   | .update (.price _ _) => "price"
+  | .update .other => "other"
 
 /-- branch tags for the evidence histogram (`% ...`, not compared): event kind, trading state before,
 which links the tick touched with which outcome, what the generation stage did -/
